@@ -190,7 +190,7 @@ def signature_fields(ctx):
         ctx.check(f in read, "reads:" + f, db.where(fn), "ParseFunc.visit_FunctionDef never reads node.args.%s: that parameter kind is dropped from def signatures" % f, "reads node.args.%s" % f)
     stored = {n.attr for n in walk_func(fn) if isinstance(n, ast.Attribute) and isinstance(n.ctx, ast.Store) and src(n.value) == "self.listener"}
     g = db.func("ast.FunctionDecl.get_argument_expressions")
-    used = {n.attr for n in walk_func(g) if isinstance(n, ast.Attribute) and src(n.value) == "self"}
+    used = {n.attr for g_ in db.with_helpers(g) for n in walk_func(g_) if isinstance(n, ast.Attribute) and src(n.value) == "self"}
     for a in ("argnames", "kwargnames", "defaults", "kwdefaults", "varargs", "kwargs"):
         ctx.check(a in stored, "stores:" + a, db.where(fn), "ParseFunc no longer stores listener.%s" % a, "stores listener.%s" % a)
         ctx.check(a in used, "uses:" + a, db.where(g), "get_argument_expressions never uses self.%s: those parameters vanish from the emitted signature" % a, "uses self.%s" % a)
@@ -203,7 +203,7 @@ def signature_fields(ctx):
     ctx.check(_appended("argnames", "vararg") and _appended("kwargnames", "kwarg"), "names-include-star-args", db.where(fn),
               "*args/**kwargs names are not appended to argnames/kwargnames", "vararg and kwarg names recorded")
     # as_call passes keyword-only arguments by name
-    kwonly = [n for n in ast.walk(g) if isinstance(n, ast.If) and src(n.test) == "as_call"]
+    kwonly = [n for g_ in db.with_helpers(g) for n in ast.walk(g_) if isinstance(n, ast.If) and src(n.test) == "as_call"]
     ctx.check(any("'%s=%s'" in src(n.body[0]) or '"%s=%s"' in src(n.body[0]) for n in kwonly), "as_call.kwonly-by-name", db.where(g), "keyword-only arguments are not passed by name in as_call mode", "kwonly passed as name=name")
 
 
